@@ -429,7 +429,12 @@ func appendSnapshotFunctions(b []byte, s *slip.Scope) []byte {
 			}
 		})
 		if 0 < len(fia) {
+			// Macros first, a function that uses a macro has to be compiled
+			// after the macro is defined.
 			sort.Slice(fia, func(i, j int) bool {
+				if mi, mj := fia[i].Kind == slip.MacroSymbol, fia[j].Kind == slip.MacroSymbol; mi != mj {
+					return mi
+				}
 				return fia[i].Name < fia[j].Name
 			})
 			b = append(b, '\n')
